@@ -25,7 +25,7 @@ def method_term(prog: Program, cls: ClassInfo, name: str, x=X, cond=COND, no_inl
     k = (id(prog), cls.qualname, name, key(x), key(cond), tuple(sorted(no_inline or ())))
     if k not in _cache:
         it = Interp(prog, no_inline=no_inline)
-        t = it.eval_method(cls, name, [x, cond])
+        t = norm_sum_axis(it.eval_method(cls, name, [x, cond]))
         _cache[k] = (t, it.guards)
     return _cache[k][0]
 
@@ -103,3 +103,26 @@ def commute_rank1(t, atoms: set):
 def delegating(prog, cls) -> bool:
     t = method_term(prog, cls, "transform")
     return bool(child_methods(t))
+
+
+def norm_sum_axis(t):
+    """jnp.sum(v, axis=0|-1) == jnp.sum(v) when v is a vmapped child log-det (children's log-dets are
+    rank-0 by induction, so the vmapped value is exactly rank-1)."""
+    VMAPS = (("ext", "equinox.filter_vmap"), ("ext", "jax.vmap"))
+
+    def is_vmapped_logdet(v):
+        if v[0] == "call" and v[1][0] == "call" and v[1][1] in VMAPS and v[1][2]:
+            f = v[1][2][0]
+            if f[0] == "lam":
+                b = f[2]
+                return b[0] == "sub" and b[2] == ("const", 1) and b[1][0] == "call" and b[1][1][0] == "attr" \
+                    and b[1][1][2] in ("transform_and_log_det", "inverse_and_log_det")
+        return False
+
+    def rw(s):
+        if s[0] == "call" and s[1] == ("ext", "jax.numpy.sum"):
+            kw = dict(s[3])
+            if "axis" in kw and kw["axis"] in (("const", 0), ("const", -1)) and "a" in kw and is_vmapped_logdet(kw["a"]):
+                return ("call", s[1], s[2], tuple((k2, v2) for k2, v2 in s[3] if k2 != "axis"))
+        return None
+    return subst(t, rw)
